@@ -46,9 +46,13 @@ def extract(P: Program) -> List[RegEntry]:
     f = P.func(f"{OPS}._create_default_registry")
     out: List[RegEntry] = []
     local_lists: Dict[str, ast.AST] = {}
+    # the registry object is whatever local the function returns (its name is irrelevant)
+    returned = {n.value.id for n in ast.walk(f.node) if isinstance(n, ast.Return) and isinstance(n.value, ast.Name)}
+    if not returned:
+        raise AnalysisError("_create_default_registry does not return a local registry object")
 
     def handle_call(c: ast.Call, env: Dict[str, Any]) -> None:
-        if not (isinstance(c.func, ast.Attribute) and isinstance(c.func.value, ast.Name) and c.func.value.id == "ops"):
+        if not (isinstance(c.func, ast.Attribute) and isinstance(c.func.value, ast.Name) and c.func.value.id in returned):
             return
         meth = c.func.attr
         if meth not in ("register", "register_typed", "register_custom"):
